@@ -16,5 +16,7 @@ for d in sorted(glob.glob('/verif/seeded/*')):
         if mm: rep.append(f"{mm.group(1)}: {'VIOLATION' if mm.group(3)=='VIOLATION' else mm.group(3)}")
         mm = re.match(r'\s+\[([a-z0-9_.]+)\]', l)
         if mm and not sub: sub = mm.group(1)
-    note = 'strengthened after a miss' if 'missed' in m.get('history','') and 'first run' in m.get('history','') else ('strengthened before the run' if m.get('history') else '')
+    h = m.get('history','')
+    note = 'strengthened after a miss' if ('first run' in h and ('missed' in h or 'HELD' in h or 'ENGINE-FAILURE' in h)) else ('strengthened before the run' if h else '')
+    if m.get('actually_breaks'): note += ('; ' if note else '') + 'breaks ' + m['actually_breaks'].split(' ')[0] + ', not ' + m.get('property','')
     print(f"| {name} | {m.get('round',1)} | {short(m.get('summary',''), 150)} | {', '.join(rep)} | {sub} | {note} |")
